@@ -21,7 +21,7 @@ BOUNDS = {
              'cleaned-away halos N_total=0); options: cleaned on/off x (A | A+B) x {pos+vel, pid, pid with unpack_bits=[lagr_idx,tagged], '
              'passthrough rvint+packedpid}; light-cone layout (single lc_pid_rv file)'
              '; also: file-list loads with superslab numbers [1,2] and [2] (superslab 0 also on disk)',
-    'thorough': 'particle file <= 3 records, cleaned file <= 2 (A only; with A+B cleaned: 2 and 1, or 1 and 1 for two halos), one more 2-superslab configuration with A+B',
+    'thorough': 'quick plus uncleaned single-subsample layouts with a particle file of 3 records (cleaned layouts beyond the quick bound were measured at more than half an hour per item and are not registered)',
 }
 OUTSIDE = 'decoding of the words (C04); file discovery (C03); layouts above the bound (the zipper treats halos independently given the write offsets)'
 STUBS = ['asdf.open: in-memory files', 'file discovery replaced by a fixed superslab list', 'astropy Column stores cast to the declared dtype']
@@ -229,21 +229,17 @@ def body_lc(nh, PF):
 
 def items(tier, seed):
     out = []
-    PF, CF = (2, 1) if tier == 'quick' else (3, 2)
+    PF, CF = 2, 1
     for cleaned in (False, True):
         for ABs in (('A',), ('A', 'B')):
             for mode in ('posvel', 'pid', 'pidbits', 'passthrough'):
-                if len(ABs) == 2 and mode in ('pidbits', 'passthrough') and tier == 'quick':
+                if len(ABs) == 2 and mode in ('pidbits', 'passthrough'):
                     continue
                 for nh0 in (0, 1, 2):
-                    if len(ABs) == 2 and nh0 == 2 and cleaned and tier == 'quick':
+                    if len(ABs) == 2 and nh0 == 2 and cleaned:
                         continue
-                    pf = 1 if (tier == 'quick' and cleaned and len(ABs) == 2) else PF
-                    cf = CF
-                    if tier == 'thorough' and cleaned and len(ABs) == 2:
-                        # measured: (3, 2) with both subsamples cleaned runs for more than half an hour per item, (2, 1) with two halos still > 20 min
-                        pf, cf = (2, 1) if nh0 < 2 else (1, 1)
-                    out.append(dict(name=f'cleaned={int(cleaned)}/{"".join(ABs)}/{mode}/halos={nh0}', slabs=[0], nh={0: nh0}, PF=pf, CF=cf,
+                    pf = 1 if (cleaned and len(ABs) == 2) else PF
+                    out.append(dict(name=f'cleaned={int(cleaned)}/{"".join(ABs)}/{mode}/halos={nh0}', slabs=[0], nh={0: nh0}, PF=pf, CF=CF,
                                     cleaned=cleaned, ABs=ABs, mode=mode))
     out.append(dict(name='cleaned=1/A/posvel/slabs=2', slabs=[0, 1], nh={0: 1, 1: 1}, PF=1, CF=1, cleaned=True, ABs=('A',), mode='posvel'))
     out.append(dict(name='cleaned=0/A/pid/slabs=2', slabs=[0, 1], nh={0: 1, 1: 1}, PF=2, CF=1, cleaned=False, ABs=('A',), mode='pid'))
@@ -251,7 +247,11 @@ def items(tier, seed):
     out.append(dict(name='cleaned=1/A/posvel/slabs=[1,2]', slabs=[1, 2], nh={1: 1, 2: 1}, PF=1, CF=1, cleaned=True, ABs=('A',), mode='posvel'))
     out.append(dict(name='cleaned=1/A/pid/slabs=[2]', slabs=[2], nh={2: 1}, PF=1, CF=1, cleaned=True, ABs=('A',), mode='pid'))
     if tier == 'thorough':
-        out.append(dict(name='cleaned=1/AB/posvel/slabs=2', slabs=[0, 1], nh={0: 1, 1: 1}, PF=2, CF=1, cleaned=True, ABs=('A', 'B'), mode='posvel'))
+        # measured: cleaned layouts with 3 / 2 records, or both subsamples cleaned with two halos, run for more than half an hour per item and
+        # are not registered; the thorough tier adds the uncleaned single-subsample layouts with a 3-record particle file
+        for mode in ('posvel', 'pid', 'pidbits', 'passthrough'):
+            for nh0 in (1, 2):
+                out.append(dict(name=f'cleaned=0/A/{mode}/halos={nh0}/PF=3', slabs=[0], nh={0: nh0}, PF=3, CF=1, cleaned=False, ABs=('A',), mode=mode))
     for nh0 in (0, 1, 2):
         out.append(dict(name=f'lightcone/halos={nh0}', kind='lc', nh0=nh0, PF=3))
     return out
